@@ -22,7 +22,7 @@ func c08(c *eng.Ctx, r *eng.Report) {
 		"R8.2 every read goes through willRead first, and every bound test on an input-derived length is written in subtraction form (`n > limit - pos`) so it cannot wrap; raw.go compares lengths before slicing; " +
 		"R8.3 DecodeBytes returns nil only after the trailing-data test; R8.4 the only explicit panics reachable from the decode entry points are the reviewed programmer-error ones; " +
 		"R8.5/R8.6 the two tag parsers (Stream.readKind, raw.go readKind) keep the same case boundaries and the census of canonical-form guards (sentinel error, operator, constant) contains the reference set; " +
-		"R8.7 the encoder/decoder cache is keyed by the Go type together with its struct tags. " +
+		"R8.7 the encoder/decoder cache is keyed by the Go type together with its struct tags; R8.8 every function of decode.go that pulls a string payload from the stream itself (readFull/readByte) carries the single-byte canonical-form guard, header/size readers and Raw exempt by a reviewed table. " +
 		"Not decided: round-trip equality and uniqueness of encodings for all values; the encoder."
 	r.Assume = []string{"reflect and io.Reader behave as documented"}
 	c08Alloc(c, r)
@@ -31,6 +31,46 @@ func c08(c *eng.Ctx, r *eng.Report) {
 	c08Panics(c, r)
 	c08Census(c, r)
 	c08CacheKey(c, r)
+	c08PayloadReaders(c, r)
+}
+
+// payloadExempt: functions that pull bytes from the input without being the
+// decoder of a string payload.
+var payloadExempt = map[string]string{
+	"(*Stream).readKind": "reads the tag byte only",
+	"(*Stream).readUint": "reads size bytes / integer bytes; the callers (readKind, uint) hold the canonical-form guards checked by R8.6",
+	"(*Stream).Raw":      "re-emits the value still encoded (RawValue); whoever decodes it later applies the checks",
+	"(*Stream).readFull": "the primitive itself",
+	"(*Stream).readByte": "the primitive itself",
+}
+
+// c08PayloadReaders: whoever consumes a string payload from the stream itself
+// must reject the one-byte string that should have been a single byte.
+func c08PayloadReaders(c *eng.Ctx, r *eng.Report) {
+	const rule = "R8.8"
+	r.Min(rule, 2)
+	for _, fn := range rlpDecodeFuncs(c) {
+		if !strings.HasSuffix(c.FileOf(fn.Pos()), "/decode.go") {
+			continue
+		}
+		calls := callsNamed(fn, "Stream).readFull", "Stream).readByte")
+		if len(calls) == 0 {
+			continue
+		}
+		name := strings.TrimPrefix(eng.FuncName(fn), "storage/rlp.")
+		name = strings.Replace(name, "storage/rlp.", "", 1)
+		if why, ok := payloadExempt[name]; ok {
+			r.Pass(rule, "reader:"+name, c.Pos(fn.Pos()), "exempt: "+why)
+			continue
+		}
+		has := false
+		for _, g := range guardTriples(c, fn) {
+			if g == "ErrCanonSize when < 128" {
+				has = true
+			}
+		}
+		r.Check(has, rule, "reader:"+name, c.Pos(calls[0].Pos()), "reads a string payload and rejects a one-byte string below 0x80 (ErrCanonSize)", name+" reads a string payload straight from the stream (readFull/readByte) but has no `size == 1 && b[0] < 128 → ErrCanonSize` guard: the two-byte form 0x81 0xNN (NN < 0x80) is accepted next to the canonical single byte, so a value has two accepted encodings")
+	}
 }
 
 func rlpDecodeFuncs(c *eng.Ctx) []*ssa.Function {
@@ -322,15 +362,8 @@ func guardTriples(c *eng.Ctx, fn *ssa.Function) []string {
 		if !ok {
 			continue
 		}
-		bo, ok := iff.Cond.(*ssa.BinOp)
-		if !ok {
-			continue
-		}
-		k, isK := eng.ConstInt(bo.Y)
-		if !isK {
-			continue
-		}
 		for si, succ := range b.Succs {
+			var found []string
 			for _, in := range succ.Instrs {
 				var vals []ssa.Value
 				switch x := in.(type) {
@@ -347,13 +380,30 @@ func guardTriples(c *eng.Ctx, fn *ssa.Function) []string {
 					d := eng.Desc(v)
 					for _, s := range sentinels {
 						if strings.Contains(d, "global:"+s) {
-							op := bo.Op
-							if si == 1 {
-								op = negOp(op)
-							}
-							out = append(out, fmt.Sprintf("%s when %s %d", s, op, k))
+							found = append(found, s)
 						}
 					}
+				}
+			}
+			if len(found) == 0 {
+				continue
+			}
+			// the facts that hold on this edge (short-circuit conditions expanded)
+			for _, cd := range eng.Conjuncts(iff.Cond, si == 0, iff) {
+				bo, isB := cd.V.(*ssa.BinOp)
+				if !isB {
+					continue
+				}
+				k, isK := eng.ConstInt(bo.Y)
+				if !isK {
+					continue
+				}
+				op := bo.Op
+				if !cd.True {
+					op = negOp(op)
+				}
+				for _, s := range found {
+					out = append(out, fmt.Sprintf("%s when %s %d", s, op, k))
 				}
 			}
 		}
@@ -418,7 +468,7 @@ var canonReference = map[string][]string{
 	"(*Stream).readKind": {"ErrCanonSize when < 56"},
 	"(*Stream).readUint": {"ErrCanonSize when == 0"},
 	"(*Stream).Bytes":    {"ErrCanonSize when < 128"},
-	"(*Stream).uint":     {"ErrCanonInt when == 0"},
+	"(*Stream).uint":     {"ErrCanonInt when == 0", "ErrCanonSize when < 128"},
 	"readSize":           {"ErrCanonSize when < 56", "ErrCanonSize when == 0"},
 	"readKind":           {"ErrCanonSize when < 128"},
 	"decodeBigInt":       {"ErrCanonInt when == 0"},
